@@ -199,6 +199,14 @@ def bl5(ctx, R):
             R.check(tag == ("phi", ("self", "is_index_file"), ("const", b"TDSh"), ("const", b"TDSm")),
                     "writer.TdmsSegment.leadin::tag", fi.where(), "TDSh for the index file, TDSm for the data file", "segment tag is `%s`" % (show(tag) if tag else None))
     fi = prog.func("writer.TdmsSegment.write")
+    write_fi = fi
+    # the header (lead-in with the metadata size) is built in write() itself or in a private helper it calls
+    from .region import region as _region
+    holders = [g for g in _region(ctx, fi, depth=2) if g.cls is fi.cls and any(isinstance(c, ast.Call) and call_name(c) == "self.leadin" for c in walk_body(g.node))]
+    if not holders:
+        raise AnchorMissing("writer.TdmsSegment.write: call of self.leadin")
+    if holders[0] is not fi:
+        fi = holders[0]
     md_calls = [c for c in walk_body(fi.node) if isinstance(c, ast.Call) and call_name(c) == "self.metadata"]
     R.check(len(md_calls) == 1, "writer.TdmsSegment.write::metadata serialised once", fi.where(),
             "the bytes measured are the bytes written", "metadata() is called %d times: the measured and the written metadata can differ" % len(md_calls))
@@ -231,6 +239,10 @@ def bl5(ctx, R):
     R.check(bool(want_size), "writer.TdmsSegment.write::metadata size", fi.where(), "metadata_size = sum(len(v.bytes)) over the metadata list that is written",
             "the metadata size handed to leadin() is `%s`, not the summed byte length of the metadata list" % (show(alpha(size_val))[:120] if size_val else None))
     # the writes, in order
+    if fi is not write_fi:
+        # header built by a helper: which of its results write() serialises first is read in write()'s own normal form
+        fi = write_fi
+        sy = Sym(prog, fi, fi.cls)
     cfg = ctx.cfg(fi)
     wcalls = sorted([c for c in walk_body(fi.node) if isinstance(c, ast.Call) and call_name(c) == "%s.write" % fi.params[1]], key=lambda c: (c.lineno, c.col_offset))
     kinds = []
@@ -250,8 +262,12 @@ def bl5(ctx, R):
             elif src[0] == "call" and src[1] == "writer.TdmsSegment.leadin" or (src[0] == "list" and len(src[1]) == 5):
                 kind = "leadin"
         kinds.append(kind)
-    R.check(kinds == ["leadin", "metadata"], "writer.TdmsSegment.write::write order", fi.where(), "lead-in bytes, then the metadata list's bytes",
-            "the segment header is written as %s (expected the serialised lead-in followed by the serialised metadata list)" % kinds)
+    if "?" in kinds and holders[0] is not write_fi:
+        R.unrecognised("writer.TdmsSegment.write::write order", fi.where(), "the header is built by %s; what write() serialises first was not recognised (%s)" % (
+            holders[0].qual, kinds))
+    else:
+        R.check(kinds == ["leadin", "metadata"], "writer.TdmsSegment.write::write order", fi.where(), "lead-in bytes, then the metadata list's bytes",
+                "the segment header is written as %s (expected the serialised lead-in followed by the serialised metadata list)" % kinds)
     wd = cfg.where(lambda n: any(call_name(c) == "self._write_data" for c in node_calls(n)))
     if not wd:
         R.violation("writer.TdmsSegment.write::raw data written", fi.where(), "write() never calls self._write_data")
@@ -458,8 +474,16 @@ def bl6(ctx, R):
     prog = ctx.prog
     seg = prog.cls("writer.TdmsSegment")
     FLAG = ("self", "is_index_file")
-    users = [fi for fi in seg.methods.values() if fi.name != "__init__" and any(
-        isinstance(n, ast.Attribute) and n.attr == "is_index_file" and isinstance(n.ctx, ast.Load) for n in walk_body(fi.node))]
+    wr = seg.methods.get("write")
+    writing = {g.qual for g in region(ctx, wr, depth=3)} if wr is not None else None
+
+    def in_log(fi_, n_):
+        return any(isinstance(c, ast.Call) and (call_name(c) or "").startswith(("log.", "logging.", "logger.")) and any(x is n_ for x in ast.walk(c))
+                   for c in walk_body(fi_.node))
+    # the methods that take part in writing a segment (write() and what it calls): a new informational method (__repr__, a size
+    # query) that mentions the flag is not part of what is written
+    users = [fi for fi in seg.methods.values() if fi.name != "__init__" and (writing is None or fi.qual in writing) and any(
+        isinstance(n, ast.Attribute) and n.attr == "is_index_file" and isinstance(n.ctx, ast.Load) and not in_log(fi, n) for n in walk_body(fi.node))]
     if not users:
         raise AnchorMissing("writer.TdmsSegment: uses of is_index_file")
     wd = "writer.TdmsSegment._write_data"
@@ -498,7 +522,12 @@ def bl6(ctx, R):
                 in_tag = any(isinstance(x, ast.IfExp) and any(y is n for y in ast.walk(x.test)) and
                              sorted([repr(prog.try_fold(x.body, fi.module)), repr(prog.try_fold(x.orelse, fi.module))]) == [repr(b"TDSh"), repr(b"TDSm")]
                              for x in walk_body(fi.node))
-                if not (in_if_test or in_tag):
+                # a bookkeeping field that nothing on the writing side reads (statistics for the caller)
+                st_ = next((x for x in walk_body(fi.node) if isinstance(x, ast.Assign) and any(y is n for y in ast.walk(x.value))), None)
+                bookkeeping = st_ is not None and all(isinstance(t, ast.Attribute) and dotted(t.value) == "self" for t in st_.targets) and not any(
+                    isinstance(y, ast.Attribute) and isinstance(y.ctx, ast.Load) and y.attr in {t.attr for t in st_.targets}
+                    for g in seg.methods.values() if writing is None or g.qual in writing for y in ast.walk(g.node))
+                if not (in_if_test or in_tag or in_log(fi, n) or bookkeeping):
                     stray.append(n)
         R.check(ok and not uses_in_value and not stray, key + " guards the raw data", fi.where(), "raw data is written iff this is not the index file",
                 "is_index_file influences %s() other than by skipping the raw data" % fi.name)
@@ -515,6 +544,31 @@ def bl6(ctx, R):
             if isinstance(c.func, ast.Attribute) and c.func.attr == "write" and len(c.args) == 1:
                 env, guards = sf.env_at(c)
                 base = sf.expr(c.func.value, env)
+                if base[0] == "method" and isinstance(base[2], tuple) and base[2] and base[2][0] == "new" and base[2][1] == seg.qual and base[1] in seg.methods \
+                        and not base[3] and not base[4]:
+                    # the twin is derived from the segment by one of its own methods:  segment.index_segment().write(...)
+                    from .sem import leaves as _leaves
+                    from .region import ctor_fields as _cf
+                    mv = Sym(prog, seg.methods[base[1]], seg, inline=False).function_value()
+                    news = [lf for _cs, lf in _leaves(mv) if lf[0] == "new" and lf[1] == seg.qual]
+                    if len(news) == 1:
+                        recv = base[2]
+                        fld_of = {fld: (pos, pn) for pos, (fld, pn) in _cf(seg).items()}
+
+                        def own(v_):
+                            if isinstance(v_, tuple):
+                                if len(v_) == 2 and v_[0] == "self" and v_[1] in fld_of:
+                                    pos, pn = fld_of[v_[1]]
+                                    if pos < len(recv[2]):
+                                        return recv[2][pos]
+                                    kw_ = dict(recv[3])
+                                    if pn in kw_:
+                                        return kw_[pn]
+                                    d_ = init.defaults.get(pn)
+                                    return Sym(prog, init, seg).expr(d_, {}) if d_ is not None else v_
+                                return tuple(own(y) for y in v_)
+                            return v_
+                        base = own(news[0])
                 if base[0] == "new" and base[1] == seg.qual:
                     ev = {"stream": sf.expr(c.args[0], env), "guards": tuple(outer_guards) + tuple(guards), "where": f.where(c)}
                     dummy = ast.Call(func=ast.Name(id="TdmsSegment", ctx=ast.Load()), args=[], keywords=[])
@@ -787,6 +841,11 @@ def po1(ctx, R):
 def wt1(ctx, R):
     prog = ctx.prog
     fi = prog.func("writer.TdmsSegment.write")
+    from .region import region as _region
+    for g in _region(ctx, fi, depth=2):
+        if g.cls is fi.cls and any(isinstance(c, ast.Call) and call_name(c) == "self.leadin" for c in walk_body(g.node)):
+            fi = g          # write() itself, or the private helper that builds the header for it
+            break
     lead = [c for c in walk_body(fi.node) if isinstance(c, ast.Call) and call_name(c) == "self.leadin"]
     if not lead:
         raise AnchorMissing("writer.TdmsSegment.write: call of self.leadin")
